@@ -676,7 +676,10 @@ def _is_volatile(func):
 
 
 def _check_range_all_cycles(nodes, active_nodes, j):
-    if isinstance(nodes[j]['function'], RangesAssembler):
+    func = nodes[j]['function']
+    if isinstance(func, RangesAssembler) and not isinstance(
+            func, InvRangesAssembler
+    ):
         return active_nodes.intersection(nodes[j]['inputs'])
     return False
 
